@@ -17,6 +17,30 @@ struct St {
     trace: Vec<(usize, &'static str)>,
 }
 
+/// the managed thread this code runs on (None on the main thread)
+pub fn current_tid() -> Option<usize> {
+    TID.with(|t| t.get())
+}
+
+pub fn point_code(name: &str) -> i128 {
+    match name {
+        "start" => 0,
+        "ns:miss" => 1,
+        "la:loop" => 2,
+        "la:mid_reset" => 3,
+        "mb:add" => 4,
+        "rn:inc" => 5,
+        "rn:dec" => 6,
+        "cb:read" => 7,
+        "cb:c2o" => 8,
+        "cb:o2h" => 9,
+        "cb:h2o" => 10,
+        "cb:h2c" => 11,
+        "panic" => 99,
+        _ => 98,
+    }
+}
+
 pub struct Sched {
     st: Mutex<St>,
     cv: Condvar,
@@ -45,11 +69,15 @@ pub fn run(
     bodies: Vec<Box<dyn FnOnce() + Send>>,
     schedule: &[usize],
     mut before_step: impl FnMut(usize),
+    filter: fn(&str) -> bool,
 ) -> (Vec<(usize, &'static str)>, bool) {
     let n = bodies.len();
     let s = Arc::new(Sched { st: Mutex::new(St { turn: None, waiting: vec![false; n], finished: vec![false; n], trace: vec![] }), cv: Condvar::new() });
     let s2 = s.clone();
     sched::set_callback(Some(Box::new(move |name| {
+        if !filter(name) {
+            return;
+        }
         if let Some(tid) = TID.with(|t| t.get()) {
             s2.park(tid, name);
         }
@@ -131,4 +159,135 @@ pub fn run(
     }
     let trace = s.st.lock().unwrap().trace.clone();
     (trace, all_done)
+}
+
+
+/// Like `run`, but a thread that does not reach its next point within `wait_ms` is taken to be
+/// blocked on a lock (it keeps running on its own if the lock is released later).  Steps naming a
+/// blocked thread are skipped unless it has parked again meanwhile.  After the schedule the
+/// runnable threads take turns; when none is runnable and some are unfinished they get
+/// `grace_ms` to come back, otherwise the verdict is a deadlock.
+/// Returns (trace, verdict): verdict 0 = all finished, 1 = deadlock.
+pub fn run_blocking(
+    bodies: Vec<Box<dyn FnOnce() + Send>>,
+    schedule: &[usize],
+    filter: fn(&str) -> bool,
+    on_point: Option<Arc<dyn Fn(usize, &'static str) + Send + Sync>>,
+    wait_ms: u64,
+    grace_ms: u64,
+) -> (Vec<(usize, &'static str)>, i128) {
+    struct B {
+        go: Vec<bool>,
+        parks: Vec<u64>,
+        waiting: Vec<bool>,
+        finished: Vec<bool>,
+        trace: Vec<(usize, &'static str)>,
+    }
+    let n = bodies.len();
+    let st = Arc::new((Mutex::new(B { go: vec![false; n], parks: vec![0; n], waiting: vec![false; n], finished: vec![false; n], trace: vec![] }), Condvar::new()));
+    fn park(st: &Arc<(Mutex<B>, Condvar)>, tid: usize, name: &'static str) {
+        let (m, cv) = &**st;
+        let mut g = m.lock().unwrap();
+        g.trace.push((tid, name));
+        g.waiting[tid] = true;
+        g.parks[tid] += 1;
+        cv.notify_all();
+        while !g.go[tid] {
+            g = cv.wait(g).unwrap();
+        }
+        g.go[tid] = false;
+        g.waiting[tid] = false;
+    }
+    let st2 = st.clone();
+    sched::set_callback(Some(Box::new(move |name| {
+        if !filter(name) {
+            return;
+        }
+        if let Some(tid) = TID.with(|t| t.get()) {
+            if let Some(f) = &on_point {
+                f(tid, name);
+            }
+            park(&st2, tid, name);
+        }
+    })));
+    for (tid, body) in bodies.into_iter().enumerate() {
+        let st3 = st.clone();
+        std::thread::spawn(move || {
+            TID.with(|t| t.set(Some(tid)));
+            park(&st3, tid, "start");
+            let r = std::panic::catch_unwind(std::panic::AssertUnwindSafe(body));
+            TID.with(|t| t.set(None));
+            let (m, cv) = &*st3;
+            let mut g = m.lock().unwrap();
+            g.finished[tid] = true;
+            if r.is_err() {
+                g.trace.push((tid, "panic"));
+            }
+            cv.notify_all();
+        });
+    }
+    let (m, cv) = &*st;
+    {
+        let mut g = m.lock().unwrap();
+        while !(0..n).all(|i| g.waiting[i] || g.finished[i]) {
+            g = cv.wait(g).unwrap();
+        }
+    }
+    // a thread is runnable when it is parked; step: let it go and wait for it to park again / finish
+    let step = |tid: usize| -> bool {
+        let mut g = m.lock().unwrap();
+        if g.finished[tid] || !g.waiting[tid] || g.go[tid] {
+            return false;
+        }
+        let before = g.parks[tid];
+        g.go[tid] = true;
+        cv.notify_all();
+        let deadline = std::time::Instant::now() + Duration::from_millis(wait_ms);
+        loop {
+            if g.finished[tid] || g.parks[tid] > before {
+                return true;
+            }
+            let now = std::time::Instant::now();
+            if now >= deadline {
+                return true; // blocked (or slow): leave it alone
+            }
+            let (g2, _) = cv.wait_timeout(g, deadline - now).unwrap();
+            g = g2;
+        }
+    };
+    for &tid in schedule {
+        if tid < n {
+            step(tid);
+        }
+    }
+    let verdict;
+    let mut idle_since: Option<std::time::Instant> = None;
+    loop {
+        let (all_fin, runnable): (bool, Vec<usize>) = {
+            let g = m.lock().unwrap();
+            ((0..n).all(|i| g.finished[i]), (0..n).filter(|&i| !g.finished[i] && g.waiting[i] && !g.go[i]).collect())
+        };
+        if all_fin {
+            verdict = 0;
+            break;
+        }
+        if runnable.is_empty() {
+            let t0 = *idle_since.get_or_insert_with(std::time::Instant::now);
+            if t0.elapsed() > Duration::from_millis(grace_ms) {
+                verdict = 1;
+                break;
+            }
+            std::thread::sleep(Duration::from_millis(5));
+            continue;
+        }
+        idle_since = None;
+        for tid in runnable {
+            step(tid);
+        }
+    }
+    if verdict == 0 {
+        sched::set_callback(None);
+    }
+    let trace = m.lock().unwrap().trace.clone();
+    (trace, verdict)
 }
